@@ -476,6 +476,13 @@ def r_declared_reaches_solver(ctx):
     driver.r_init_once(ctx)
 
 
-RULES = [r_pairwise, r_busy_bind, r_select_workers, r_neg_point, r_cumul, r_work_amount,
+def r_resources_assert_nothing(ctx):
+    """a worker, a cumulative worker or a selection constrains nothing by itself (the selection's count is asserted with the task
+    that uses it): R-OWN-EXACT restricted to the resource classes"""
+    from rules import indicators
+    indicators.r_own_exact(ctx, bases=("Resource",))
+
+
+RULES = [r_resources_assert_nothing, r_pairwise, r_busy_bind, r_select_workers, r_neg_point, r_cumul, r_work_amount,
          lambda ctx: task_rules.r_drain(ctx, only=("workers", "tasks")), r_reported_assignment, r_declared_reaches_solver,
          lambda ctx: __import__("rules.validation", fromlist=["x"]).r_dup_name(ctx, only=('add_resource_worker', 'add_resource_select_workers', 'add_resource_cumulative_worker'))]
